@@ -1,5 +1,5 @@
 (* C15: evaluation of the model on recorded cases (correspondence check). *)
-From CJ Require Import Common.Base C15.Model C15.ModelName C15.ModelObf C15.ModelAny C15.ModelDns C15.ModelB32 C15.ModelExch.
+From CJ Require Import Common.Base C15.Model C15.ModelName C15.ModelObf C15.ModelAny C15.ModelDns C15.ModelB32 C15.ModelExch C15.ModelPb.
 
 Definition obs := (bool * bytes * bool * bytes)%type.
 
@@ -258,6 +258,84 @@ Definition chk_exch (dom : name) (plen : N) (qw : bytes) (rlen : N) (rw : bytes)
   | _ => false
   end.
 
+(* ---- protobuf codec ----
+   typed observation of a message: per kind the optional fields; unknown fields are observed as raw bytes
+   (Go keeps their original encoding) and compared after decoding them with the raw layer *)
+Definition wval_eqb (a b : wval) : bool :=
+  match a, b with
+  | WVarint x, WVarint y => x =? y
+  | WFixed64 x, WFixed64 y | WBytes x, WBytes y | WFixed32 x, WFixed32 y => bytes_eqb x y
+  | _, _ => false
+  end.
+Definition field_eqb (a b : field) : bool := (fst a =? fst b) && wval_eqb (snd a) (snd b).
+Definition unk_matches (model : list field) (raw : bytes) : bool :=
+  match dec_fields raw with Ok fs => list_eqb field_eqb model fs | _ => false end.
+Definition unk_of_raw (raw : bytes) : list field := match dec_fields raw with Ok fs => fs | _ => [] end.
+Definition ob_eqb (a b : option bool) : bool := option_eqb Bool.eqb a b.
+Definition oz_eqb (a b : option Z) : bool := option_eqb Z.eqb a b.
+Definition on_eqb (a b : option N) : bool := option_eqb N.eqb a b.
+Definition oby_eqb (a b : option bytes) : bool := option_eqb bytes_eqb a b.
+
+Definition caddr := (option bytes * option N * bytes)%type.      (* ip, port, raw unknown *)
+Definition addr_matches (a : addr_pb) (o : caddr) : bool :=
+  let '(ip, port, unk) := o in oby_eqb (a_ip a) ip && on_eqb (a_port a) port && unk_matches (a_unk a) unk.
+Definition oaddr_matches (a : option addr_pb) (o : option caddr) : bool :=
+  match a, o with Some x, Some y => addr_matches x y | None, None => true | _, _ => false end.
+Definition to_addr (o : caddr) : addr_pb := let '(ip, port, unk) := o in {| a_ip := ip; a_port := port; a_unk := unk_of_raw unk |}.
+
+Inductive pbval :=
+| PGeneric (rand : option bool) (unk : bytes)
+| PPrefix (id : option Z) (prefix : option bytes) (flush : option Z) (rand : option bool) (unk : bytes)
+| PDtls (src4 src6 : option caddr) (rand unordered : option bool) (unk : bytes)
+| PAny (url value unk : bytes)
+| PNone.
+
+(* the model's verdict on unmarshalling d as the kind of the observation o (ok = Go returned no error) *)
+Definition res_matches {A} (r : result pb_err A) (ok : bool) (f : A -> bool) : bool :=
+  match r with
+  | Ok m => ok && f m
+  | Err PbErr => negb ok
+  | Err PbUnsupported => true          (* groups, non-ASCII type URLs: outside the model *)
+  | Panic => false
+  end.
+Definition chk_pb_dec (kind : N) (d : bytes) (ok : bool) (o : pbval) : bool :=
+  match kind with
+  | 0 => res_matches (unmarshal_generic d) ok (fun m => match o with PGeneric r u => ob_eqb (g_rand m) r && unk_matches (g_unk m) u | _ => false end)
+  | 1 => res_matches (unmarshal_prefix d) ok (fun m => match o with
+           | PPrefix i p f r u => oz_eqb (p_id m) i && oby_eqb (p_prefix m) p && oz_eqb (p_flush m) f && ob_eqb (p_rand m) r && unk_matches (p_unk m) u
+           | _ => false end)
+  | 2 => res_matches (unmarshal_dtls d) ok (fun m => match o with
+           | PDtls a4 a6 r un u => oaddr_matches (d_src4 m) a4 && oaddr_matches (d_src6 m) a6 && ob_eqb (d_rand m) r && ob_eqb (d_unordered m) un && unk_matches (d_unk m) u
+           | _ => false end)
+  | _ => res_matches (unmarshal_any d) ok (fun m => match o with
+           | PAny url v u => bytes_eqb (y_url m) url && bytes_eqb (y_value m) v && unk_matches (y_unk m) u
+           | _ => false end)
+  end.
+
+(* proto.Marshal of the message described by v produced `out` *)
+Definition chk_pb_enc (v : pbval) (out : bytes) : bool :=
+  match v with
+  | PGeneric r u => bytes_eqb (marshal_generic {| g_rand := r; g_unk := unk_of_raw u |}) out
+  | PPrefix i p f r u => bytes_eqb (marshal_prefix {| p_id := i; p_prefix := p; p_flush := f; p_rand := r; p_unk := unk_of_raw u |}) out
+  | PDtls a4 a6 r un u => bytes_eqb (marshal_dtls {| d_src4 := option_map to_addr a4; d_src6 := option_map to_addr a6; d_rand := r; d_unordered := un; d_unk := unk_of_raw u |}) out
+  | PAny url v u => bytes_eqb (marshal_any {| y_url := url; y_value := v; y_unk := unk_of_raw u |}) out
+  | PNone => false
+  end.
+
+(* the station's path: Any bytes -> proto.Unmarshal -> UnmarshalAnypbTo(dst): URL check, then the value's bytes as dst.
+   url_of = the expected type URL of dst, as in chk_any *)
+Definition chk_anypb_bytes (dst : N) (d : bytes) (ok1 ok2 : bool) (o : pbval) : bool :=
+  match unmarshal_any d with
+  | Ok a =>
+    ok1 &&
+    let u := fix_legacy_url (string_of_list_ascii (map ascii_of_N (y_url a))) in
+    if negb (String.eqb u EmptyString) && negb (String.eqb u (any_url_of dst)) then negb ok2
+    else chk_pb_dec dst (y_value a) ok2 o
+  | Err PbErr => negb ok1
+  | Err PbUnsupported => true
+  | Panic => false
+  end.
+
 Inductive vcase :=
 | CFmt (op : N) (d : bspec) (o : obs_spec)
 | CNameRt (n : name) (o : name_rt_obs)
@@ -272,7 +350,10 @@ Inductive vcase :=
 | CMsgDec (d : bytes) (code : N) (back : cmsg)
 | CQuery (m : cmsg) (dom : name) (hasresp : bool) (flags : N) (haspay : bool) (payload : bytes)
 | CExch (dom : name) (plen : N) (qw : bytes) (rlen : N) (rw : bytes) (fallback : bool)
-| CNameStr (n : name) (s : bytes).
+| CNameStr (n : name) (s : bytes)
+| CPbDec (kind : N) (d : bytes) (ok : bool) (o : pbval)
+| CPbEnc (v : pbval) (out : bytes)
+| CAnyBytes (dst : N) (d : bytes) (ok1 ok2 : bool) (o : pbval).
 
 Definition chk (c : vcase) : bool :=
   match c with
@@ -290,4 +371,7 @@ Definition chk (c : vcase) : bool :=
   | CQuery m d hr fl hp p => chk_query m d hr fl hp p
   | CExch d pl qw rl rw fb => chk_exch d pl qw rl rw fb
   | CNameStr n s => bytes_eqb (name_string n) s
+  | CPbDec k d ok o => chk_pb_dec k d ok o
+  | CPbEnc v out => chk_pb_enc v out
+  | CAnyBytes dst d ok1 ok2 o => chk_anypb_bytes dst d ok1 ok2 o
   end.
